@@ -18,8 +18,8 @@
 //!   calls   <name>:<cs>;..     every (name, flag) handed to use_keyspace         ('-' if none)
 //!   texts   <text>;..          distinct USE statement texts seen by the mock    ('-' if none)
 //!   stats   ok=<successful uses>,fr=<frames>,strict=<frames of requests started while a keyspace was established
-//!           by an undisturbed successful call>,late=<those on connections accepted after that call returned>,
-//!           pre=<prepared-statement frames>,bat=<BATCH frames>,pag=<paged QUERY frames>,rst=<node restarts>,rsh=<reshards>,dly=<USE answers delayed>,early=<frames that overtook a delayed answer>,
+//!           by an undisturbed successful call>,late=<those on connections the mock registered after that call returned>,
+//!           pre=<prepared-statement frames>,bat=<BATCH frames>,pag=<paged QUERY frames>,rst=<node stop+start that came back>,rsh=<reshards>,dly=<USE answers delayed>,early=<frames that overtook a delayed answer>,
 //!           cn=,nd=,slow=<requests abandoned after 3 s>,op=<connections accepted>,xck=<frames where the handler's
 //!           record and mocknode's disagree>
 //! other observations:  not-run <reason> (environment: no session, mock did not start, use_keyspace exceeded the
@@ -58,13 +58,16 @@ struct ConnAck {
     hist: Vec<String>,
     /// some request was already handled on this connection
     seen: bool,
+    /// deadline of the delayed answer applied last
+    last_applied: Option<Instant>,
 }
 impl ConnAck {
     fn apply_due(&mut self, now: Instant) {
         self.pending.sort_by_key(|p| p.0);
         while !self.pending.is_empty() && self.pending[0].0 <= now {
-            let (_, k) = self.pending.remove(0);
+            let (t, k) = self.pending.remove(0);
             self.cur = Some(k);
+            self.last_applied = Some(t);
         }
     }
 }
@@ -81,6 +84,7 @@ struct Shared {
     delayed: AtomicU64,
     early: AtomicU64,
     xck: AtomicU64,
+    reordered: AtomicU64,
 }
 
 const PREP_TEXT: &str = "SELECT v FROM t WHERE p = ?";
@@ -121,19 +125,32 @@ fn handler(sh: Arc<Shared>) -> Handler {
             a.hist.push(format!("{:?}@{:?}:{}", *fault, now, text));
             if setup && matches!(*fault, UseFault::Silent(_)) {
                 if let Some(k) = target {
-                    a.cur = Some(k);
+                    a.cur = Some(k);   // first request on the connection: nothing can be pending
                 }
                 return None;
             }
+            // The model assumes that the USE statements of one connection are answered in submission order
+            // (one TCP stream, a server that handles them in order). mocknode serves later frames while a
+            // delayed reply sleeps, so a USE arriving behind a still-delayed SetKeyspace answer is delayed
+            // behind it as well: answers are written in arrival order.
+            let behind = a.pending.iter().map(|p| p.0).max().map(|t| t.saturating_duration_since(now).as_millis() as u64 + 2);
             return match *fault {
-                UseFault::None => {
-                    if let Some(k) = target {
-                        a.cur = Some(k);
+                UseFault::None => match behind {
+                    None => {
+                        if let Some(k) = target {
+                            a.cur = Some(k);
+                        }
+                        None
                     }
-                    None
-                }
+                    Some(b) => {
+                        if let Some(k) = target {
+                            a.pending.push((now + Duration::from_millis(b), k));
+                        }
+                        Some(vec![Action::Delay(b), Action::Default])
+                    }
+                },
                 UseFault::Delay(ms) => {
-                    let d = rng.range(1, ms.max(1));
+                    let d = rng.range(1, ms.max(1)).max(behind.unwrap_or(0));
                     if let Some(k) = target {
                         a.pending.push((now + Duration::from_millis(d), k));
                         sh.delayed.fetch_add(1, Ordering::Relaxed);
@@ -178,6 +195,12 @@ fn handler(sh: Arc<Shared>) -> Handler {
                 sh.early.fetch_add(1, Ordering::Relaxed);
             } else if a.cur != ctx.keyspace {
                 sh.xck.fetch_add(1, Ordering::Relaxed);
+                // still different two seconds after the last delayed answer was due: the mock wrote the
+                // answers of this connection in another order than the USEs arrived (outside the model's
+                // declared assumption) - the scenario is not judged
+                if a.last_applied.is_none_or(|t| now.saturating_duration_since(t) > Duration::from_secs(2)) {
+                    sh.reordered.fetch_add(1, Ordering::Relaxed);
+                }
                 if std::env::var("C20_DEBUG").is_ok() {
                     eprintln!("XCK conn {} mine {:?} mock {:?} now {:?} hist {:?}", ctx.conn_id, a.cur, ctx.keyspace, now, a.hist);
                 }
@@ -323,6 +346,7 @@ struct Ctx {
     calls: Mutex<Vec<(String, bool)>>,
     ok_uses: AtomicU64,
     slow: AtomicU64,
+    restarts: AtomicU64,
     /// `not-run <reason>`: the harness gave up (environment / cap), nothing is judged
     hang: Mutex<Option<String>>,
     /// an invalid name that use_keyspace accepted (a violation of the second sentence)
@@ -488,6 +512,7 @@ pub async fn run_scenario(sseed: u64, thorough: bool) -> String {
         delayed: AtomicU64::new(0),
         early: AtomicU64::new(0),
         xck: AtomicU64::new(0),
+        reordered: AtomicU64::new(0),
     });
     cluster.on_prepare(
         PREP_TEXT,
@@ -554,6 +579,7 @@ pub async fn run_scenario(sseed: u64, thorough: bool) -> String {
         calls: Mutex::new(builder_ks.map(|k| (k.to_string(), false)).into_iter().collect()),
         ok_uses: AtomicU64::new(builder_ks.is_some() as u64),
         slow: AtomicU64::new(0),
+        restarts: AtomicU64::new(0),
         hang: Mutex::new(None),
         invalid_accepted: Mutex::new(None),
         cluster: cluster.clone(),
@@ -561,7 +587,7 @@ pub async fn run_scenario(sseed: u64, thorough: bool) -> String {
         use_prepared,
     });
     let mut nodes = nodes0;
-    let (mut restarts, mut reshards) = (0u64, 0u64);
+    let mut reshards = 0u64;
     let ops = gen_ops(&mut r, nodes0, thorough);
     for op in ops {
         if std::env::var("C20_DEBUG").is_ok() {
@@ -595,7 +621,9 @@ pub async fn run_scenario(sseed: u64, thorough: bool) -> String {
                             Side::Restart(n) => {
                                 c.stop_node(n, CutKind::Rst);
                                 tokio::time::sleep(Duration::from_millis(d + 1)).await;
-                                let _ = c.start_node(n).await;
+                                if c.start_node(n).await.is_ok() {
+                                    me.restarts.fetch_add(1, Ordering::Relaxed);
+                                }
                                 false
                             }
                             Side::Reshard(n) => {
@@ -612,10 +640,8 @@ pub async fn run_scenario(sseed: u64, thorough: bool) -> String {
                 if let Ok(true) = sider.await {
                     nodes += 1;
                 }
-                match side {
-                    Side::Restart(_) => restarts += 1,
-                    Side::Reshard(_) => reshards += 1,
-                    _ => {}
+                if let Side::Reshard(_) = side {
+                    reshards += 1;
                 }
                 sh.fault.lock().unwrap().0 = UseFault::None;
             }
@@ -642,8 +668,9 @@ pub async fn run_scenario(sseed: u64, thorough: bool) -> String {
                 let n = node.min(nodes - 1);
                 cluster.stop_node(n, CutKind::Rst);
                 tokio::time::sleep(Duration::from_millis(r.range(1, 30))).await;
-                let _ = cluster.start_node(n).await;
-                restarts += 1;
+                if cluster.start_node(n).await.is_ok() {
+                    cx.restarts.fetch_add(1, Ordering::Relaxed);
+                }
             }
             Op::Reshard { node } => {
                 let n = node.min(nodes - 1);
@@ -686,6 +713,7 @@ pub async fn run_scenario(sseed: u64, thorough: bool) -> String {
     let calls = cx.calls.lock().unwrap().clone();
     let ok_uses = cx.ok_uses.load(Ordering::Relaxed);
     let slow = cx.slow.load(Ordering::Relaxed);
+    let restarts = cx.restarts.load(Ordering::Relaxed);
     let invalid_accepted = cx.invalid_accepted.lock().unwrap().clone();
     cluster.set_handler(None);
     drop(cx);
@@ -695,6 +723,9 @@ pub async fn run_scenario(sseed: u64, thorough: bool) -> String {
     }
     if let Some(h) = hang {
         return format!("not-run {}", h.replace(' ', "_"));
+    }
+    if sh.reordered.load(Ordering::Relaxed) > 0 {
+        return "not-run mock-reordered-use".into();
     }
     // strict frames: frames of requests that STARTED while a keyspace was established by a call that
     // began with no call in flight, was not overlapped and returned Ok, no call having started since
